@@ -1,5 +1,6 @@
 //! unit: u09
-//! properties: C09 C03 C05
+//! properties: C09 C03 C05 C01 C10
+//! note: also run for C01, C10: the code it constrains lies inside mechanisms those properties name (a change made there for their sake must meet these clauses too)
 //! note: narrow claim for C09 (holding back what depends on an unfinished monitor update): FundedChannel::monitor_updating_paused adds to what is held and never drops anything held earlier; monitor_updating_restored releases exactly the held forwards / failures / finalized claims and clears them, releases a revoke_and_ack or a commitment update only if one was held (none while the peer is disconnected) and clears the flags; on the ChainMonitor side an update whose persistence is in progress is recorded as pending, a completion removes exactly that update, and the final status of update_channel is Completed only if the persister completed and the channel is not post-close
 //! trusted: monitor_updating_paused is extracted whole; monitor_updating_restored, ChainMonitor::channel_monitor_updated and ChainMonitor::update_channel_internal are deep R15 slices (the statements named in the note); env: FundedChannel / ChannelContext are field skeletons; the held items are opaque; get_last_revoke_and_ack / get_last_commitment_update_for_send are external_body with unconstrained results; ChannelState is a two-flag skeleton (monitor update in progress, peer disconnected) with the macro-generated accessors' meaning; enum ChannelMonitorUpdateStatus extracted
 //! trusted: R15 (deep slices): the eight places in channel.rs where a FundedChannel increments latest_monitor_update_id and builds a ChannelMonitorUpdate (get_update_fulfill_htlc, splice_initial_commitment_signed, commitment_signed_update_monitor, revoke_and_ack, shutdown, maybe_promote_splice_funding, build_commitment_no_status_check, get_shutdown): the increment statement and the `update_id:` expression, verbatim; force_shutdown (id after the last unblocked update) and free_holding_cell_htlcs (id + 1, merged into the next update) are not sliced
